@@ -127,7 +127,7 @@ func fieldKeyOf(fa *ssa.FieldAddr) string {
 	if nt, ok := st.(*types.Named); ok {
 		n = nt.Obj().Name()
 	}
-	return n + "." + st.Underlying().(*types.Struct).Field(fa.Field).Name()
+	return n + "." + fieldName(st, fa.Field)
 }
 
 func (c *Ctx) ranges() *rangeEngine {
@@ -782,7 +782,7 @@ func (e *rangeEngine) analyse(fn *ssa.Function, forceWiden bool) *fnRes {
 						if isIntType(phi.Type()) {
 							v := a.get(es, edge)
 							v = a.searchHitAdjust(phi, pi, v)
-							if ov, ok := a.e.siteOverride[fname(a.fn)+"|phi:"+phi.Comment]; ok && !v.bot {
+							if ov, ok := a.e.siteOverride[fname(a.fn)+"|"+phiOfCall(phi)]; ok && !v.bot {
 								if m := meetVal(v, ov); !m.bot {
 									v = m.withAx(v.ax | ov.ax)
 								}
@@ -921,8 +921,8 @@ func (a *fnAnalysis) cellDefault(k cellKey) aval {
 	if st, ok := k.root.Type().Underlying().(*types.Pointer); ok {
 		if nt, ok := st.Elem().(*types.Named); ok {
 			if s, ok := nt.Underlying().(*types.Struct); ok && k.field < s.NumFields() {
-				a.res.fieldsRead[nt.Obj().Name()+"."+s.Field(k.field).Name()] = true
-				return a.e.field(nt.Obj().Name() + "." + s.Field(k.field).Name())
+				a.res.fieldsRead[nt.Obj().Name()+"."+fieldName(nt, k.field)] = true
+				return a.e.field(nt.Obj().Name() + "." + fieldName(nt, k.field))
 			}
 		}
 	}
@@ -1123,7 +1123,7 @@ func (a *fnAnalysis) block(b *ssa.BasicBlock, st *rstate) {
 					if pt, ok := k.root.Type().Underlying().(*types.Pointer); ok {
 						if nt, ok := pt.Elem().(*types.Named); ok {
 							if s, ok := nt.Underlying().(*types.Struct); ok && isIntType(s.Field(k.field).Type()) {
-								key := nt.Obj().Name() + "." + s.Field(k.field).Name()
+								key := nt.Obj().Name() + "." + fieldName(nt, k.field)
 								if a.stored(k) {
 									a.res.exitCells[key] = joinVal(a.res.exitCells[key].orBot(), v)
 								}
@@ -1475,7 +1475,7 @@ func (a *fnAnalysis) call(st *rstate, x *ssa.Call) {
 					if pt, ok := k.root.Type().Underlying().(*types.Pointer); ok {
 						if nt, ok := pt.Elem().(*types.Named); ok {
 							if s, ok := nt.Underlying().(*types.Struct); ok && k.field < s.NumFields() {
-								flat = nt.Obj().Name() + "." + s.Field(k.field).Name()
+								flat = nt.Obj().Name() + "." + fieldName(nt, k.field)
 							}
 						}
 					}
@@ -1931,4 +1931,28 @@ func (e *rangeEngine) obsAt(fn *ssa.Function, ins ssa.Instruction, v ssa.Value) 
 		}
 	}
 	return botVal() // never reached by the analysis (dead code or bottom summaries)
+}
+
+// phiOfCall names a merge by what it merges, not by the variable it came from: "phi-of:<callee>" for a
+// phi all of whose incoming values are the result of one call of <callee> or that result plus/minus a
+// constant (a day difference and the same difference after a borrow); "" otherwise.
+func phiOfCall(phi *ssa.Phi) string {
+	var call *ssa.Call
+	for _, e := range phi.Edges {
+		v := e
+		if bo, ok := v.(*ssa.BinOp); ok && (bo.Op == token.ADD || bo.Op == token.SUB) {
+			if _, isK := bo.Y.(*ssa.Const); isK {
+				v = bo.X
+			}
+		}
+		cl, ok := v.(*ssa.Call)
+		if !ok || cl.Common().StaticCallee() == nil || (call != nil && cl != call) {
+			return ""
+		}
+		call = cl
+	}
+	if call == nil {
+		return ""
+	}
+	return "phi-of:" + fname(call.Common().StaticCallee())
 }
